@@ -67,7 +67,7 @@ func genCfg(t *rapid.T, serials []uint32) hook.ClientCfg {
 		switch rapid.IntRange(0, 3).Draw(t, "device.kind") {
 		case 0: // not configured
 		case 1:
-			c.Devices = append(c.Devices, hook.DeviceCfg{Serial: s, HasAddr: true, IP: [4]byte{10, 0, 0, 7}, Port: 60000, ViaNew: rapid.Bool().Draw(t, "via.new"), TZ: gen.DeviceTZ(t, "tz"),
+			c.Devices = append(c.Devices, hook.DeviceCfg{Serial: s, HasAddr: true, IP: [4]byte{10, 0, 0, 7}, Port: 60000, ViaNew: rapid.Bool().Draw(t, "via.new"), TZ: gen.DeviceTZ(t, "tz"), Doors: gen.Doors(t, "doors"),
 				Protocol: rapid.SampledFrom([]string{"udp", "udp", "", "any", "UDP", "TCP", "auto"}).Draw(t, "protocol")})
 		case 2:
 			c.Devices = append(c.Devices, hook.DeviceCfg{Serial: s, HasAddr: true, IP: [4]byte{10, 0, 0, 8}, Port: 54321, Protocol: "tcp", ViaNew: rapid.Bool().Draw(t, "via.new"), TZ: gen.DeviceTZ(t, "tz")})
